@@ -366,6 +366,21 @@ def check(prop, tier, seed):
                     extra_in.append(w)
         inputs.extend(extra_in)
         gen_stats.append({"name": "rescaled_copies", "vectors": len(extra_in)})
+    if plan.get("negzero_every"):
+        # signed-zero copies: every zero of the vector is handed to the SDK as -0.0 (see exec.rs); same judged event
+        NEGZEROABLE = {"bound_op", "eval_bound", "eval_fn", "arith", "partial_fn"}
+        k, extra_in = 0, []
+        for v in inputs:
+            i = v.get("in", {})
+            if v.get("ev") in NEGZEROABLE and "lift" not in i and "rescale" not in i and "[0, 1]" in json.dumps(i):
+                k += 1
+                if k % plan["negzero_every"] == 0:
+                    w = json.loads(json.dumps(v))
+                    w["in"]["negzero"] = True
+                    w["case"] = str(w.get("case", "")) + "-negzero"
+                    extra_in.append(w)
+        inputs.extend(extra_in)
+        gen_stats.append({"name": "signed_zero_copies", "vectors": len(extra_in)})
     if plan.get("via_artifact"):
         # bytes of the independent encoder (unknown fields, explicit defaults, unpacked scalars, any field order) also arrive
         # as artifact LAYERS: stored with the matching media type and read back through the typed getters
@@ -377,6 +392,9 @@ def check(prop, tier, seed):
                 w["in"]["dir"] = os.path.relpath(os.path.join(wd, "arch"), ROOT)
                 w["case"] = str(w.get("case", "")) + "-layer"
                 extra_in.append(w)
+        if plan["via_artifact"] == "only":
+            # (the property is about artifacts: keep only what travels through a layer)
+            inputs = [v for v in inputs if v.get("ev") != "wire_decode"]
         inputs.extend(extra_in)
         gen_stats.append({"name": "wire_decode_via_artifact_layer", "vectors": len(extra_in)})
     inp_path = os.path.join(wd, "inputs.ndjson")
